@@ -2,7 +2,7 @@
 Every stream function has the signature f(tier, rng, k, n) and yields (stream, bytes-expression, meta)."""
 import os
 
-from .lib import Rng, hx
+from .lib import Rng, hx, special_ip6, special_ip4
 
 HERE = os.path.dirname(os.path.dirname(os.path.abspath(__file__)))
 
@@ -35,6 +35,8 @@ def rand_port(rng):
 
 
 def rand_ip4(rng):
+    if rng.chance(1, 8):
+        return special_ip4(rng)          # incl. values taken from the source dictionary
     return bytes(rand_octet(rng) for _ in range(4))
 
 
@@ -49,6 +51,9 @@ def rand_groups(rng, mask=None):
             gs.append(rng.choice([1, 0xF, 0x10, 0xFF, 0x100, 0xFFF, 0x1000, 0xFFFF, 0xABCD]) if rng.chance(1, 2) else 1 + rng.below(65535))
     if rng.chance(1, 8):
         gs = [0, 0, 0, 0, 0, 0xFFFF, rng.below(65536), rng.below(65536)]      # IPv4-mapped
+    elif rng.chance(1, 8):
+        a = special_ip6(rng)             # well-known prefixes, values taken from the source dictionary
+        gs = [a[2 * i] * 256 + a[2 * i + 1] for i in range(8)]
     return gs
 
 
@@ -112,8 +117,22 @@ def groups_octets(gs):
     return b"".join(bytes([g >> 8, g & 255]) for g in gs)
 
 
+KEYWORD_FILLERS = [b" UNKNOWN", b" UNKNOWN UNKNOWN", b" UNKNOWN  UNKNOWN", b" PROXY UNKNOWN", b" PROXY", b" TCP4 1.2.3.4 5.6.7.8 1 2", b" TCP6 ::1 ::2 1 2",
+                   b" TCP4", b" unknown", b" UNKNOWN\n", b" \nUNKNOWN ", b" x UNKNOWN y", b" PROXY TCP4 1.1.1.1 2.2.2.2 1 2\n",
+                   b" 10.0.0.1\n10.0.0.2 80 443", b" \n", b" a\n", b" \t", b" \x00"]
+
+
 def unknown_text(rng):
-    pick = rng.below(12)
+    pick = rng.below(14)
+    if pick >= 12:
+        # the ignored text repeats a keyword of the grammar, or contains a bare LF (legal: only CR LF ends the line)
+        if pick == 13 and rng.chance(1, 2):
+            from . import dictionary
+            d = dictionary.harvest()
+            pool = [t for t in (d["novel_strs"] or d["strs"]) if b"\r" not in t and len(t) <= 40]
+            if pool:
+                return b" " + b" ".join(rng.choice(pool) for _ in range(1 + rng.below(3)))
+        return rng.choice(KEYWORD_FILLERS)
     if pick == 0:
         return b""
     if pick == 1:
@@ -333,6 +352,21 @@ def token_enum(tier, rng, k, n):
                     x //= nt
                 yield ("v1-tokens", hx(out), {})
             idx += 1
+    # strings the current source mentions and the baseline tree did not, combined with the core tokens
+    from . import dictionary
+    novel = [t for t in dictionary.harvest()["novel_strs"] if len(t) <= 40][:6]
+    if novel:
+        toks = [b"PROXY", b" ", b"\r\n", b"\r", b"TCP4", b"UNKNOWN", b"1.2.3.4 5.6.7.8 1 2"] + novel
+        nt = len(toks)
+        for d in range(1, 5):
+            for v in range(nt ** d):
+                if idx % n == k:
+                    out, x = b"", v
+                    for _ in range(d):
+                        out += toks[x % nt]
+                        x //= nt
+                    yield ("v1-tokens-dict", hx(out), {})
+                idx += 1
 
 
 def length_boundary(tier, rng, k, n):
@@ -355,6 +389,85 @@ def length_boundary(tier, rng, k, n):
             yield ("v1-length-nocr", hx(b"PROXY UNKNOWN " + b"z" * (total - 14)), {})
             yield ("v1-length-nocr", hx(b"q" * total), {})
             yield ("v1-length-nocr", hx(("é".encode() * 60)[:total]), {})
+
+
+def _hex_of_width(rng, w):
+    """a non-zero group value whose lower-case hex spelling has exactly w digits"""
+    lo = 1 if w == 1 else 16 ** (w - 1)
+    return lo + rng.below(16 ** w - lo)
+
+
+def _ip6_of_length(rng, want):
+    """an uncompressed IPv6 spelling of exactly `want` characters (15..39 plain, 19..45 with a dotted-quad tail), or None"""
+    forms = []
+    if 15 <= want <= 39:
+        forms.append("plain")
+    if 19 <= want <= 45:
+        forms.append("v4tail")
+    if not forms:
+        return None
+    form = rng.choice(forms)
+    if form == "plain":
+        ngroups, fixed, quad = 8, 7, ""
+    else:
+        for _ in range(50):
+            o = [rng.choice([0, 7, 9, 10, 42, 99, 100, 123, 255]) for _ in range(4)]
+            quad = "%d.%d.%d.%d" % tuple(o)
+            if 6 <= want - 6 - len(quad) <= 24:
+                break
+        else:
+            return None
+        ngroups, fixed = 6, 6 + len(quad)
+    digits = want - fixed
+    if not ngroups <= digits <= 4 * ngroups:
+        return None
+    widths = [1] * ngroups
+    left = digits - ngroups
+    while left:
+        i = rng.below(ngroups)
+        if widths[i] < 4:
+            widths[i] += 1
+            left -= 1
+    gs = ["%x" % _hex_of_width(rng, w) for w in widths]
+    if rng.chance(1, 4):
+        gs = [g.upper() for g in gs]
+    return (":".join(gs) + (":" + quad if form == "v4tail" else "")).encode()
+
+
+def tcp_length_boundary(tier, rng, k, n):
+    """v1-8: well-formed TCP6 / TCP4 lines dialled to an exact total length: every total from 96 to 112 bytes for TCP6
+    (the long ones need the dotted-quad tail, 40..45 characters, which `Display` never prints), 50..56 for TCP4.
+    Lines of at most 107 bytes must be accepted (C01), longer ones are HeaderTooLong."""
+    rng = rng.fork("v1tcplen%d" % k)
+    reps = (6 if tier == "quick" else 120)
+    idx = 0
+    for total in range(96, 113):
+        for rep in range(reps * (3 if 104 <= total <= 108 else 1)):
+            idx += 1
+            if idx % n != k:
+                continue
+            for _ in range(200):
+                lsp, ldp = 1 + rng.below(5), 1 + rng.below(5)
+                rest = total - 16 - lsp - ldp
+                la = 15 + rng.below(31)
+                lb = rest - la
+                a, b = _ip6_of_length(rng, la), _ip6_of_length(rng, lb)
+                if a and b and a != b:
+                    break
+            else:
+                continue
+            def port(w):
+                return str(rng.choice([0, 7]) if w == 1 else min(65535, 10 ** (w - 1) + rng.below(9 * 10 ** (w - 1)))).encode()
+            fields = [b"PROXY", b"TCP6", a, b, port(lsp), port(ldp)]
+            line = b" ".join(fields) + b"\r\n"
+            if len(line) != total:
+                continue
+            yield ("v1-tcp-length", hx(line + (rng.choice(TRAILERS) if rng.chance(1, 3) else b"")), {"kind": 6, "fields": fields})
+    if k == 0:
+        for o in (b"255.255.255.255", b"249.250.199.200", b"100.100.100.100"):
+            for sp in (b"65535", b"9999", b"0"):
+                fields = [b"PROXY", b"TCP4", o, b"255.255.255.254", sp, b"65534"]
+                yield ("v1-tcp-length", hx(b" ".join(fields) + b"\r\n"), {"kind": 4, "fields": fields})
 
 
 def noise(tier, rng, k, n):
@@ -398,7 +511,7 @@ def multibyte_after_cr(tier, rng, k, n):
             yield ("v1-multibyte", hx(b"y" * (total - len(e)) + e + e), {})
 
 
-V1_STREAMS = (corpus, valid, mutations, slot_substitution, token_enum, length_boundary, noise, multibyte_after_cr)
+V1_STREAMS = (corpus, valid, mutations, slot_substitution, token_enum, length_boundary, tcp_length_boundary, noise, multibyte_after_cr)
 
 
 # ---- Std streams --------------------------------------------------------------------------------
